@@ -164,7 +164,7 @@ func (e *compatibilityEngine) NewInstantQuery(q storage.Queryable, opts *promql.
 	exec, err := execution.New(lplan.Expr(), q, ts, ts, 0, e.getLookbackDelta(opts))
 	if e.triggerFallback(err) {
 		e.queries.WithLabelValues("true").Inc()
-		return e.prom.NewInstantQuery(q, opts, qs, ts)
+		return e.newFallbackQuery(e.prom.NewInstantQuery(q, opts, qs, ts))
 	}
 	e.queries.WithLabelValues("false").Inc()
 	if err != nil {
@@ -201,7 +201,7 @@ func (e *compatibilityEngine) NewRangeQuery(q storage.Queryable, opts *promql.Qu
 	exec, err := execution.New(lplan.Expr(), q, start, end, step, e.getLookbackDelta(opts))
 	if e.triggerFallback(err) {
 		e.queries.WithLabelValues("true").Inc()
-		return e.prom.NewRangeQuery(q, opts, qs, start, end, step)
+		return e.newFallbackQuery(e.prom.NewRangeQuery(q, opts, qs, start, end, step))
 	}
 	e.queries.WithLabelValues("false").Inc()
 	if err != nil {
@@ -227,6 +227,90 @@ func (e *compatibilityEngine) getLookbackDelta(opts *promql.QueryOpts) time.Dura
 		return opts.LookbackDelta
 	}
 	return e.lookbackDelta
+}
+
+// fallbackQuery is a query that is evaluated by the Prometheus engine. It gives
+// the query the guarantees of a natively evaluated one where the Prometheus
+// query (as of v0.40) lacks them: a panic raised by the storage while the
+// querier is opened or the series are selected, which happens outside of the
+// Prometheus evaluator's recover, is returned as the query's error, and Cancel
+// and Close may be called from other goroutines while Exec is running.
+type fallbackQuery struct {
+	promql.Query
+	logger log.Logger
+
+	mtx    sync.Mutex
+	cancel context.CancelFunc
+	// done is closed when Exec has returned. It is nil until Exec is called.
+	done chan struct{}
+	// closed is set by a Close that came before Exec: the query cannot be executed any more.
+	closed bool
+}
+
+func (e *compatibilityEngine) newFallbackQuery(q promql.Query, err error) (promql.Query, error) {
+	if err != nil {
+		return nil, err
+	}
+	return &fallbackQuery{Query: q, logger: e.logger}, nil
+}
+
+func (q *fallbackQuery) Exec(ctx context.Context) (ret *promql.Result) {
+	ctx, cancel := context.WithCancel(ctx)
+	done := make(chan struct{})
+	q.mtx.Lock()
+	if q.closed {
+		q.mtx.Unlock()
+		cancel()
+		return &promql.Result{Err: context.Canceled}
+	}
+	q.cancel = cancel
+	q.done = done
+	q.mtx.Unlock()
+
+	defer close(done)
+	defer cancel()
+	defer func() {
+		e := recover()
+		if e == nil {
+			return
+		}
+		level.Error(q.logger).Log("msg", "panic in fallback query", "expr", q.Query.String(), "err", e)
+		ret = &promql.Result{}
+		if err, ok := e.(error); ok {
+			ret.Err = errors.Wrap(err, "unexpected error")
+		} else {
+			ret.Err = errors.Newf("unexpected error: %v", e)
+		}
+	}()
+
+	return q.Query.Exec(ctx)
+}
+
+// Cancel cancels the context Exec evaluates the query with. It does not call
+// Cancel of the Prometheus query, which is not safe to use while Exec runs.
+func (q *fallbackQuery) Cancel() {
+	q.mtx.Lock()
+	cancel := q.cancel
+	q.mtx.Unlock()
+	if cancel != nil {
+		cancel()
+	}
+}
+
+// Close cancels a running Exec, waits for it to return and then releases the
+// memory of the result.
+func (q *fallbackQuery) Close() {
+	q.Cancel()
+	q.mtx.Lock()
+	done := q.done
+	if done == nil {
+		q.closed = true
+	}
+	q.mtx.Unlock()
+	if done != nil {
+		<-done
+	}
+	q.Query.Close()
 }
 
 type Query struct {
